@@ -60,6 +60,7 @@ class Ctx:
         self.notes = []
         self.njobs = 0
         self.names = set()
+        self.plain_tags = {}   # collection -> predicate tags violated in panic-free control runs (C18 attribution)
         self.pool = ThreadPoolExecutor(max_workers=6)
 
     def quick(self):
@@ -148,6 +149,9 @@ class Ctx:
         plain_fault = {x["tag"] for x in v["viols"] if not after(x, '"out":"unwound"')}
         # the post-panic predicates have panic-free counterparts: a tree that is already invalid, leaky
         # or wrong before any panic is not torn BY the panic
+        if "control" in flags:
+            self.plain_tags.setdefault(coll, set()).update(x["tag"] for x in v["viols"])
+        plain_fault |= self.plain_tags.get(coll, set())
         plain_fault |= {t for t, base in (("TORNWF", "WF"), ("TORNPOOL", "POOL"), ("TORN", "REFINE"), ("TORN", "KEEP"), ("TORN", "COMPLETE")) if base in plain_fault}
         plain_twin = {x["tag"] for x in v["viols"] if not after(x, '"op":"clear"')}
         for x in v["viols"]:
@@ -574,6 +578,13 @@ def plan_faults(ctx):
     ords = ["maptree-i32", "settree-str", "maplist-str", "setlist-i32"] if q else ORD_TREES_MAP + ORD_TREES_SET + ORD_LISTS
     futs += ord_cover_jobs(ctx, ords, 4, [0], 1 if q else 2, driver="faults", limit=12 if q else 80, flags=("fault",),
                            max_events=40000 if q else 400000)
+    # panic-free control runs of the same random drivers come first: a predicate that is violated there
+    # is violated without any panic, so the same predicate failing after an injected panic is not C18's
+    ctl = random_jobs(ctx, ["keytree", "keylist"], 1 if q else 2, {"keys": 8, "tspan": 5, "steps": 2500 if q else 6000, "seglen": 70, "inject": 0},
+                      flags=("control",), tag="-control")
+    ctl += random_jobs(ctx, ords, 1 if q else 2, {"keys": 10, "steps": 2000 if q else 5000, "seglen": 90, "inject": 0}, flags=("control",), tag="-control")
+    ctl += seg_random_jobs(ctx, 1 if q else 2, 600 if q else 3000, inject=0, flags=("control",), tag="-control")
+    ctx.collect(ctl)
     futs += random_jobs(ctx, ["keytree", "keylist"], 1 if q else 4, {"keys": 8, "tspan": 5, "steps": 2500 if q else 10000, "seglen": 70, "inject": 1},
                         flags=("fault",), tag="-inject")
     futs += random_jobs(ctx, ords, 1 if q else 3, {"keys": 10, "steps": 2000 if q else 8000, "seglen": 90, "inject": 1}, flags=("fault",), tag="-inject")
